@@ -395,6 +395,69 @@ class Body:
         _ = self.defs
         return self._pdefs
 
+    @property
+    def mut_call_defs(self):
+        """local -> call sites that receive a `&mut` borrow of (a projection of) the local: the
+        call may write it (e.g. Vec::push(&mut v, x), Vec::append(&mut v, &mut w))"""
+        if getattr(self, "_mcd", None) is None:
+            ref_of = {}
+            changed = True
+            # direct borrows
+            for s in self.sites():
+                n = s.node
+                if s.si is not None and n["k"] == "assign" and not n["dst"]["p"]:
+                    rv = n["rv"]
+                    if rv["k"] in ("ref", "rawptr") and rv.get("mut"):
+                        base = rv["place"]["l"]
+                        deref_first = bool(rv["place"]["p"]) and rv["place"]["p"][0] == "*"
+                        ref_of.setdefault(n["dst"]["l"], set()).add((base, deref_first))
+            # resolve reborrows  _c = &mut (*_a)  where _a is itself a borrow
+            res = {}
+            def resolve(l, depth=0):
+                if l in res:
+                    return res[l]
+                out = set()
+                res[l] = out
+                for base, deref_first in ref_of.get(l, ()):
+                    if deref_first and base in ref_of and depth < 8:
+                        out |= resolve(base, depth + 1)
+                    elif deref_first:
+                        out.add(base)  # reborrow of a reference held in a parameter/local
+                    else:
+                        out.add(base)
+                return out
+            d = defaultdict(list)
+            for s in self.calls():
+                for a in s.node["args"]:
+                    p = op_place(a)
+                    if p is not None and not p["p"] and p["l"] in ref_of:
+                        for base in resolve(p["l"]):
+                            d[base].append(s)
+            self._mcd = d
+        return self._mcd
+
+    @property
+    def ptr_store_defs(self):
+        """local -> assignment sites that store through a raw pointer derived from a Box held in the
+        local (the `vec![..]` lowering: Box::new_uninit + store + box_assume_init_into_vec_unsafe)"""
+        if getattr(self, "_psd", None) is None:
+            d = defaultdict(list)
+            for s in self.sites():
+                n = s.node
+                if s.si is None or n["k"] != "assign":
+                    continue
+                dst = n["dst"]
+                if not dst["p"] or dst["p"][0] != "*":
+                    continue
+                ty = self.local_ty(dst["l"])
+                if not ty.startswith("*"):
+                    continue
+                for o in origins(self, {"l": dst["l"], "p": []}, transparent=()):
+                    if o.kind == "call" and o.site is not None:
+                        d[o.site.node["dst"]["l"]].append(s)
+            self._psd = d
+        return self._psd
+
     def uses_of(self, local):
         """sites reading `local` (as operand base, ref base, or call argument)"""
         out = []
@@ -967,6 +1030,18 @@ def _deps_engine(body, place_or_op, through_calls=True, max_steps=6000, stop_loc
                 push_op(o, keep)
             if "place" in rv:
                 push_place(rv["place"], keep)
+        for s in body.ptr_store_defs.get(l, []):
+            for o in rvalue_operands(s.node["rv"]):
+                push_op(o)
+        for s in body.mut_call_defs.get(l, []):
+            if s not in calls:
+                calls.append(s)
+            if through_calls:
+                for a in s.node["args"]:
+                    pa = op_place(a)
+                    if pa is not None and pa["l"] == l:
+                        continue
+                    push_op(a)
         for s in body.partial_defs.get(l, []):
             n = s.node
             if s.si is None:
